@@ -164,7 +164,8 @@ pub fn gen_predicate(r: &mut Rng) -> (usize, Value) {
 
 pub fn gen_naive(r: &mut Rng) -> Value {
     let mut m = Map::new();
-    m.insert("_type".into(), Value::String(if r.chance(4, 5) { "link".into() } else { gen_string(r) }));
+    // (`_type`: the format's own string, the other statement format's, or anything)
+    m.insert("_type".into(), Value::String(match r.below(5) { 0 => gen_string(r), 1 => "https://in-toto.io/Statement/v0.1".into(), _ => "link".into() }));
     m.insert("name".into(), Value::String(gen_string(r)));
     m.insert("materials".into(), gen_artifacts(r));
     m.insert("products".into(), gen_artifacts(r));
@@ -181,7 +182,7 @@ pub fn gen_v01(r: &mut Rng) -> (Value, usize, usize) {
     let (fmt, pred) = gen_predicate(r);
     let declared = if r.chance(2, 3) { fmt } else { r.below(3) };
     let v = json!({
-        "_type": if r.chance(4, 5) { "https://in-toto.io/Statement/v0.1".to_string() } else { gen_string(r) },
+        "_type": match r.below(5) { 0 => gen_string(r), 1 => "link".to_string(), _ => "https://in-toto.io/Statement/v0.1".to_string() },
         "subject": gen_artifacts(r),
         "predicateType": PRED_TYPES[declared],
         "predicate": pred,
